@@ -74,6 +74,9 @@ def judge_elements(src_vals, got, rc, src, dst, exempt, fills, dstbits):
     return None
 
 
+OWN_FILL = 7        # representable in every external type
+
+
 def build_var_cases(fmt, stride16):
     """one case per (external type, direction): variables"""
     cases = []
@@ -90,13 +93,16 @@ def build_var_cases(fmt, stride16):
             c.op('*', 'def_dim', f=0, name='d%d' % mi, len=len(vals))
             # every third variable is a record variable that the put extends: range errors must not keep the other records from appearing
             c.op('*', 'def_var', f=0, name='p%d' % mi, xtype=D.XT_NAME[X], dims=[0] if mi % 3 == 2 else [mi + 1])
+            # every fourth variable carries its own _FillValue (put as an attribute: the variable itself stays in no-fill mode):
+            # unrepresentable elements must receive this value, not the type default
+            if mi % 4 == 1: c.op('*', 'put_att', f=0, v=mi, name='_FillValue', xtype=D.XT_NAME[X], n=1, vals=[OWN_FILL])
         c.op('*', 'enddef', f=0)
         for mi, (M, vals) in enumerate(plan):
             # typed call; flexible call with a contiguous buffer; flexible call with a strided (non-contiguous) buffer type
             for api in ((None, 'flex') if mi % 3 == 0 else ((None, 'flexvec') if mi % 3 == 1 else (None,))):
                 lp = c.op('*', 'put', f=0, form='vara', v=mi, s=[0], c=[len(vals)], coll=1, mem=M, api='flex' if api else None, lay='vec:1:2' if api == 'flexvec' else None, vals=','.join(fmtv(x) for x in vals))
                 lg = c.op('*', 'get', f=0, form='vara', v=mi, s=[0], c=[len(vals)], coll=1, mem=D.XT_MEM[X])
-                ctx.append(('put', M, vals, lp, lg, api))
+                ctx.append(('put', M, vals, lp, lg, api) + ((dict(fill=OWN_FILL),) if mi % 4 == 1 else ()))
         c.op('*', 'close', f=0)
         cases.append((c, ctx, X, fmt))
         # ---- GET: ext -> mem
@@ -219,7 +225,8 @@ def main(tier=None):
             nconv += len(vals); pairs.add((fmt, X, M, direction, api == 'att'))
             obj = 'attribute' if api == 'att' else 'variable'
             if direction == 'put':
-                src, dst, rc, got, fills, bits = md, xd, o1.rc, o2.vals(), [C.EXT_FILL[X]], xd[1]
+                own = ent[6].get('fill') if len(ent) > 6 and isinstance(ent[6], dict) else None
+                src, dst, rc, got, fills, bits = md, xd, o1.rc, o2.vals(), ([own] if own is not None else [C.EXT_FILL[X]]), xd[1]
                 if o2.rc != 0:
                     ck.violation(('rc', 'readback', obj), c.text()[:20000], '%s: natural-type read-back failed rc=%d' % (c.name, o2.rc)); continue
             else:
